@@ -661,4 +661,103 @@ Section Loops.
       unfold visit_loop. rewrite exec_while. rewrite (eval_in_buf y gblk m _ _ ln R).
       destruct (Z.ltb_spec iC (Z.of_nat (length (LB (ExDefs.lb s))))); [lia|]. reflexivity.
   Qed.
+
+  (* the loop the model runs (ExDefs.glob_loop) is the instrumented one without the trace and the exit kind *)
+  Lemma glob_loop_x_erase : forall fuelM iM s vis,
+    fst (fst (GlobDefs.glob_loop_x rfind mexec fuelM iM pat body nt dep s vis)) = ExDefs.glob_loop rfind mexec fuelM iM pat body nt dep s.
+  Proof.
+    induction fuelM as [|f IH]; intros iM s vis; [reflexivity|]. cbn [GlobDefs.glob_loop_x ExDefs.glob_loop].
+    destruct (nth_error (ExDefs.lns (ExDefs.lb s)) iM) as [x|]; [|reflexivity].
+    destruct (if Bool.eqb (negb match rfind pat (ExDefs.ltxt x) false with Some _ => true | None => false end) nt
+              then mexec body (ExDefs.set_xrow s (Z.of_nat iM)) else (s, 0)) as [s1 r].
+    destruct (Bool.eqb (negb match rfind pat (ExDefs.ltxt x) false with Some _ => true | None => false end) nt && negb (r =? 0)); [reflexivity|].
+    destruct (ExDefs.glob_scan _ dep (ExDefs.lb s1)) as [j l]. apply IH.
+  Qed.
+
+  (* ---- (6) the tail of ec_glob: xgdep++; marking loop; i = beg; visit loop; final sweep; xgdep--; rstr_free(re); return 0 *)
+  Hypothesis Hb6 : In b6 fr.
+  Hypothesis Hfree : forall m s, st_rep m s -> exists v m', call X_rstr_free [VPtr bre 0] m = Ok (v, m') /\ st_rep m' s.
+  Lemma exec_gdep_add m g d lc fuel : cell_at m G_xgdep g -> i32 g -> i32 (g + d) ->
+    exec call fuel (SExpr (EIncMem true (Some I32) d (EGlob G_xgdep))) (mkst lc m) = ONormal (mkst lc (upd m G_xgdep [VInt (g + d)])).
+  Proof.
+    intros Hc Hg Hgd'. rewrite exec_expr. cbn [eval bind memm]. rewrite (load_cell m G_xgdep g Hc). cbn [bind].
+    rewrite (wrap_i32 g Hg). rewrite chk_I32 by exact Hgd'. cbn [bind snd fst]. rewrite (store_cell m G_xgdep g _ Hc). reflexivity.
+  Qed.
+  Lemma st_rep_gdep m s g' : st_rep m s -> st_rep (upd m G_xgdep [VInt (Z.of_nat g')]) (ExDefs.set_gdep s g') /\ keeps m (upd m G_xgdep [VInt (Z.of_nat g')]).
+  Proof.
+    intros ((y & gblk & R) & HB & Hx & Hxi & Hg).
+    assert (Hlt : (G_xgdep < length m)%nat) by (apply nth_error_Some; unfold cell_at in Hg; congruence).
+    split.
+    - unfold st_rep. cbn [ExDefs.set_gdep ExDefs.lb ExDefs.xrow ExDefs.xgdep].
+      split; [exists y, gblk; apply mrep_other; [exact R|apply keep_gdep|exact Hlt]|]. split; [exact HB|].
+      split; [apply cell_at_upd_other; [exact Hlt|intro E; symmetry in E; exact (gx_ne E)|exact Hx]|]. split; [exact Hxi|].
+      apply cell_at_upd_same. exact Hlt.
+    - intros b Hb. apply mem_upd_other; [exact Hlt|]. intro E. subst b. exact (Hng Hb).
+  Qed.
+
+  Lemma glob_tail_ok m s b e v11 v12 fuelM fuelC :
+    st_rep m s -> dep = N.of_nat (S (ExDefs.xgdep s)) ->
+    cell_at m b6 b -> cell_at m b7 e -> 0 <= b < 2147483647 -> e <= Z.of_nat (length (LB (ExDefs.lb s))) -> i32 e ->
+    nth_error m b10 = Some [VPtr bs os] -> (fuelM + B < fuelC)%nat ->
+    let s3 := ExDefs.set_gdep s (S (ExDefs.xgdep s)) in
+    let s4 := ExDefs.set_lb s3 (ExDefs.globset_range (Z.to_nat (e - b - 1)) (Z.to_nat (b + 1)) dep (ExDefs.lb s3)) in
+    snd (GlobDefs.glob_loop_x rfind mexec fuelM (Z.to_nat b) pat body nt dep s4 []) <> 2%N ->
+    let s5 := ExDefs.glob_loop rfind mexec fuelM (Z.to_nat b) pat body nt dep s4 in
+    let s6 := ExDefs.set_lb s5 (ExDefs.globclear (length (ExDefs.lns (ExDefs.lb s5))) 0 dep (ExDefs.lb s5)) in
+    exists i' ln' m',
+      exec call fuelC glob_tail (mkst [v0; v1; v2; v3; VPtr bre 0; VPtr b5 0; VPtr b6 0; VPtr b7 0; VInt (b2z nt); v9; VPtr b10 0; v11; v12] m)
+      = OReturn (VInt 0) (ST i' ln' m') /\ st_rep m' (ExDefs.set_gdep s6 (ExDefs.xgdep s)).
+  Proof.
+    intros S0 Hd Hcb Hce Hb0 Hle Hie Hs Hf s3 s4 Hx2 s5 s6.
+    pose proof S0 as ((y & gblk & R) & HB & Hxr & Hxi & Hg).
+    (* xgdep++ *)
+    destruct (st_rep_gdep m s (S (ExDefs.xgdep s)) S0) as (S3 & K3). fold s3 in S3.
+    set (m3 := upd m G_xgdep [VInt (Z.of_nat (S (ExDefs.xgdep s)))]) in *.
+    pose proof S3 as ((y3 & g3 & R3) & HB3 & Hxr3 & _ & Hg3).
+    assert (Hg3' : cell_at m3 G_xgdep (Z.of_N dep)) by (rewrite Hd, zofN_nat; exact Hg3).
+    assert (Hcb3 : cell_at m3 b6 b) by (unfold cell_at; rewrite (K3 b6 Hb6); exact Hcb).
+    assert (Hce3 : cell_at m3 b7 e) by (unfold cell_at; rewrite (K3 b7 Hb7); exact Hce).
+    assert (Hlen : i32 (Z.of_nat (length (LB (ExDefs.lb s))))) by (destruct R as (_ & _ & _ & _ & _ & A6 & _); exact A6).
+    (* the marking loop *)
+    destruct (mark_loop_ok y3 (Z.to_nat (e - (b + 1))) (b + 1) (ExDefs.lb s3) g3 m3 v12 fuelC e R3 Hg3' Hce3 Hie ltac:(lia) Hle eq_refl) as (g4 & E4 & R4).
+    { cbn [s3 ExDefs.set_gdep ExDefs.lb] in *. lia. }
+    replace (Z.to_nat (e - (b + 1))) with (Z.to_nat (e - b - 1)) in R4 by lia.
+    set (m4 := upd m3 (y_bg y3) g4) in *.
+    assert (S4 : st_rep m4 s4) by (apply (st_rep_marks m3 s3 y3 g3 g4 _ S3 R3 R4)).
+    assert (K4 : keeps m3 m4) by (apply (keeps_marks y3 g3 m3 _ g4 R3)).
+    (* the visit loop *)
+    destruct (visit_loop_ok fuelM (Z.to_nat b) s4 [] b m4 v12 fuelC S4) as (i5 & ln5 & m5 & E5 & S5 & K5 & G5).
+    { cbn [s4 s3 ExDefs.set_lb ExDefs.set_gdep ExDefs.xgdep]. exact Hd. }
+    { rewrite (K4 b10 Hb10), (K3 b10 Hb10). exact Hs. }
+    { left. lia. } { exact Hf. } { exact Hx2. }
+    rewrite glob_loop_x_erase in S5, G5. fold s5 in S5, G5.
+    (* the final sweep *)
+    pose proof S5 as ((y5 & g5 & R5) & HB5 & Hxr5 & Hxi5 & Hg5).
+    assert (Hg5' : cell_at m5 G_xgdep (Z.of_N dep)).
+    { rewrite Hd, zofN_nat. rewrite G5 in Hg5. cbn [s4 s3 ExDefs.set_lb ExDefs.set_gdep ExDefs.xgdep] in Hg5. exact Hg5. }
+    destruct (sweep_loop_ok y5 (length (LB (ExDefs.lb s5))) 0%nat (ExDefs.lb s5) g5 m5 ln5 fuelC R5 Hg5' eq_refl ltac:(lia)) as (g6 & E6 & R6).
+    fold s6 in R6. set (m6 := upd m5 (y_bg y5) g6) in *.
+    assert (S6 : st_rep m6 s6) by (apply (st_rep_marks m5 s5 y5 g5 g6 _ S5 R5 R6)).
+    (* xgdep-- and rstr_free *)
+    destruct (st_rep_gdep m6 s6 (ExDefs.xgdep s) S6) as (S7 & _).
+    destruct (Hfree _ _ S7) as (vf & m8 & E8 & S8).
+    pose proof S6 as (_ & _ & _ & _ & Hg6).
+    assert (Eg6 : ExDefs.xgdep s6 = S (ExDefs.xgdep s)).
+    { unfold s6. cbn [ExDefs.set_lb ExDefs.xgdep]. rewrite G5. reflexivity. }
+    exists (Z.of_nat (length (LB (ExDefs.lb s5)))), ln5, m8. split; [|exact S8].
+    unfold glob_tail. rewrite exec_seq. unfold gdep_inc. rewrite (exec_gdep_add m (Z.of_nat (ExDefs.xgdep s)) 1 _ fuelC Hg) by (unfold i32; lia).
+    replace (Z.of_nat (ExDefs.xgdep s) + 1) with (Z.of_nat (S (ExDefs.xgdep s))) by lia. fold m3.
+    rewrite exec_seq. rewrite exec_seq. unfold mark_init. rewrite exec_expr. cbn [eval bind get_local set_local locals set_nth nth_error memm].
+    rewrite (load_cell m3 b6 b Hcb3). cbn [bind]. rewrite wrap_i32 by (unfold i32 in *; lia). cbn [as_int bind arith].
+    rewrite chk_I32 by (unfold i32 in *; lia). cbn [bind set_local locals set_nth memm]. fold (ST (b + 1) v12 m3). rewrite E4. fold m4.
+    rewrite exec_seq. unfold visit_init. rewrite exec_expr. cbn [eval bind get_local set_local locals set_nth nth_error memm ST].
+    rewrite (load_cell m4 b6 b) by (unfold cell_at; rewrite (K4 b6 Hb6); exact Hcb3). cbn [bind]. rewrite wrap_i32 by (unfold i32 in *; lia).
+    cbn [bind set_local locals set_nth memm ST]. fold (ST b v12 m4). rewrite exec_seq. rewrite E5.
+    rewrite exec_seq. rewrite exec_seq. unfold sweep_init. rewrite exec_expr. cbn [eval bind get_local set_local locals set_nth nth_error memm ST].
+    fold (ST 0 ln5 m5). change 0 with (Z.of_nat 0). rewrite E6. fold m6.
+    rewrite exec_seq. unfold gdep_dec. unfold ST at 1. rewrite (exec_gdep_add m6 (Z.of_nat (ExDefs.xgdep s6)) (-1) _ fuelC Hg6) by (rewrite Eg6; unfold i32; lia).
+    replace (Z.of_nat (ExDefs.xgdep s6) + -1) with (Z.of_nat (ExDefs.xgdep s)) by (rewrite Eg6; lia).
+    rewrite exec_seq. rewrite exec_expr. cbn [eval bind get_local locals nth_error memm]. rewrite E8. cbn [bind].
+    rewrite exec_return. reflexivity.
+  Qed.
 End Loops.
